@@ -327,6 +327,71 @@ def bitLengthModelView (s : List Char) : Nat := (encode s).length * BIT_LENGTH_F
 /-- `concat_elements_bytes`: the two value slices appended -/
 def concatModel (a b : List Char) : List Nat := encode a ++ encode b
 
+/-! ## `regexp_is_match` with an array of patterns and an array of flags: the per-batch cache
+
+`regexp_is_match` compiles every *complete pattern* `format!("(?{flag}){pattern}")` (or the bare
+pattern when the flag is null) once per call and keeps it in `patterns: HashMap<String, Regex>`
+keyed by that complete pattern.  The regex engine is a parameter (`compile`, `isMatch`). -/
+
+
+/-- one row of the three zipped input arrays -/
+structure RxRow where
+  value : Option (List Char)
+  pattern : Option (List Char)
+  flag : Option (List Char)
+
+/-- the cache key and the text that is compiled: `(?flags)pattern`, or the pattern alone -/
+def completePattern (p : List Char) (f : Option (List Char)) : List Char :=
+  match f with
+  | some f => ['(', '?'] ++ f ++ [')'] ++ p
+  | none => p
+
+section
+variable {R : Type} (compile : List Char → Option R) (isMatch : R → List Char → Bool)
+
+/-- `patterns.get(&pattern)` -/
+def cacheGet (cache : List (List Char × R)) (k : List Char) : Option R :=
+  (cache.find? (fun e => e.1 == k)).map (·.2)
+
+/-- specification of one row on its own: null unless value and pattern are both present; an empty
+complete pattern matches everything; `none` = "Regular expression did not compile" -/
+def rxRowSpec (row : RxRow) : Option (Option Bool) :=
+  match row.value, row.pattern with
+  | some v, some p =>
+    let cp := completePattern p row.flag
+    if cp = [] then some (some true)
+    else match compile cp with
+      | none => none
+      | some re => some (some (isMatch re v))
+  | _, _ => some none
+
+/-- every row on its own; the first compile error aborts the call -/
+def rxSpecAll : List RxRow → Option (List (Option Bool))
+  | [] => some []
+  | row :: rest =>
+    match rxRowSpec compile isMatch row with
+    | none => none
+    | some o => (rxSpecAll rest).map (o :: ·)
+
+/-- the loop of `regexp_is_match` as written, threading the cache through the rows -/
+def rxLoop : List RxRow → List (List Char × R) → Option (List (Option Bool))
+  | [], _ => some []
+  | row :: rest, cache =>
+    match row.value, row.pattern with
+    | some v, some p =>
+      let cp := completePattern p row.flag
+      if cp = [] then (rxLoop rest cache).map (some true :: ·)
+      else match cacheGet cache cp with
+        | some re => (rxLoop rest cache).map (some (isMatch re v) :: ·)
+        | none =>
+          match compile cp with
+          | none => none
+          | some re => (rxLoop rest ((cp, re) :: cache)).map (some (isMatch re v) :: ·)
+    | _, _ => (rxLoop rest cache).map (none :: ·)
+
+def regexpIsMatchModel (rows : List RxRow) : Option (List (Option Bool)) := rxLoop compile isMatch rows []
+end
+
 /-! ## UTF-8 decoding (used by the driver to read case lines, and by tests) -/
 
 def isCont (b : Nat) : Bool := 128 ≤ b && b < 192
